@@ -83,7 +83,7 @@ def case(cid, rng, sc):
     user_scaler = kind in ("scale-source", "scale-target", "shift-source", "shift-target") and rng.random() < 0.4
     tr, te = (perm[:12], perm[12:]) if explicit else (None, None)
     c = {"id": cid, "kind": kind, "dx": dx, "dy": dy, "est": est_kind, "user_scaler": user_scaler, "raised": "", "X": np.round(X, 6).tolist(), "Y": np.round(Y, 6).tolist(),
-         "base": {}, "trans": {}, "lre_fix": 0, "lre_bigshift": 0, "lre_col": 0, "lre_colscaled": 0, "gre_lin": 0, "grd_orth": 0, "gre_train": 0, "lre_all": [], "pgre_all": []}
+         "base": {}, "trans": {}, "ntest": int(len(te)) if te is not None else 0, "lre_fix": 0, "lre_bigshift": 0, "lre_col": 0, "lre_colscaled": 0, "gre_lin": 0, "grd_orth": 0, "gre_train": 0, "lre_all": [], "pgre_all": []}
     try:
         with warnings.catch_warnings():
             warnings.simplefilter("ignore")
@@ -150,10 +150,10 @@ def case(cid, rng, sc):
 def gen(args):
     wid, scs, sd = args
     rng = np.random.default_rng([sd, wid, 1313])
-    return [case("s%d" % k, rng, sc) for k, sc in scs]
+    return [case("s%d" % k, rng, sc) for k, sc in core.timed(scs)]
 
 
-KEYS = ("id", "kind", "dx", "dy", "raised", "base", "trans", "gre_lin", "grd_orth", "gre_train", "lre_all", "pgre_all", "lre_fix", "lre_bigshift", "lre_col", "lre_colscaled")
+KEYS = ("id", "kind", "dx", "dy", "raised", "base", "trans", "gre_lin", "grd_orth", "gre_train", "lre_all", "pgre_all", "lre_fix", "lre_bigshift", "lre_col", "lre_colscaled", "ntest")
 
 
 def strip(c):
